@@ -1,5 +1,5 @@
 """Property table: which engine and configuration decides each property."""
-import e1
+import e1, e3
 
 E1_ASSUME = [
     "interleavings are explored at synchronisation operations only (mutex, rwmutex, waitgroup, atomic, channel, select, go, timer, context); plain-memory data races are outside this search and are looked for by the separate free-running -race pass",
@@ -36,4 +36,8 @@ PROPS = {
                 bound={}, budget={"quick": 120, "thorough": 900},
                 assumptions=E1_ASSUME + ["fakenats / fakestomp mirror nats.go v1.33.1 and go-stomp v2.1.4 subscription semantics (see the packages' header comments)"],
                 explanation="real NATS and STOMP subscriber/publisher transports over broker models: every length-3 sequence over {valid, foreign topic, 0-byte, 3-byte, bad header block, bad version} containing a valid message, Unsubscribe at every position and racing, worker counts 1-2; all schedules to the bound"),
+    "C05": dict(run=e3.run, replay=e3.replay, level="fault_enumeration",
+                assumptions=["inputs whose declared header size lies between 1 MiB and 2 GiB make the stream readers allocate that much before reading (about a second each); they are counted as skipped per entry point and represented by explicit probes; such an allocation is recorded as a diagnostic, not a violation",
+                             "asynchronous receivers (adapter read loop, NATS/STOMP subscriber loops) are covered by the E1 harnesses of C15/C07 with malformed bodies; this check drives the synchronous entry points they call"],
+                explanation="every input runs inside its own controlled-scheduler execution, so a call that parks forever is a detected end state rather than a timeout"),
 }
